@@ -13,6 +13,11 @@ fn main() {
         usage();
     }
     let property = args[1].clone();
+    if property == "C16-CHILD" {
+        let port: u16 = args.get(2).and_then(|p| p.parse().ok()).unwrap_or(0);
+        let marker = args.get(3).cloned().unwrap_or_default();
+        std::process::exit(umverif::c16::child_main(port, marker));
+    }
     let mut tier = std::env::var("VERIF_TIER").unwrap_or_else(|_| "quick".to_string());
     let mut seed: u64 = std::env::var("VERIF_SEED")
         .ok()
@@ -118,6 +123,10 @@ fn main() {
         }
         "C09" => {
             umverif::c09::run(&mut rep);
+            rep.finish()
+        }
+        "C16" => {
+            umverif::c16::run(&mut rep);
             rep.finish()
         }
         "C17" => {
